@@ -11,6 +11,7 @@ from common import compare_ev, fixed_datasets
 from gen.data import gen_dataset
 from gen.expr import Opt, gen_query
 from sexpr import q
+import capture
 import impl
 import pyworld
 
@@ -257,6 +258,9 @@ def run(ctx):
         check_comp_cases(ctx, srcs)
         done += len(srcs)
     check_ctor_cases(ctx, ctx.n(400, 8000))
+    # comprehensions in lambdas given as python callables, loop variables spelled like captured names: CPython on the
+    # original lambda vs the recorded (capture-rewritten) lambda, and the Lean parseCallable correspondence
+    capture.run_cases(ctx, ctx.n(120, 3000), ID)
 
 
 def replay(ctx, case):
